@@ -24,7 +24,12 @@ func verifAnyResult() (system.Collection, int) {
 		}
 		return 0
 	}
-	switch verifrt.Choose("form", 8) {
+	switch verifrt.Choose("form", 9) {
+	case 8: // a primitive element that has no System value is a single non-Boolean item like any other
+		if verifrt.NondetBool("unsigned") {
+			return system.Collection{&dtpb.UnsignedInt{Value: 3000000000}}, 1
+		}
+		return system.Collection{&dtpb.Quantity{Code: &dtpb.Code{Value: "mg"}}}, 1
 	case 0:
 		v := verifrt.NondetBool("b")
 		return system.Collection{system.Boolean(v)}, b2i(v)
